@@ -307,6 +307,11 @@ pub struct ReplayFile {
     /// crash class only: the worker process executed runs first_run, first_run+stride, ..., run
     #[serde(default)]
     pub crash_prefix: Option<(u64, u64)>,
+    /// the violation depends on state that earlier runs of the same worker process left behind
+    /// (process-global state in the code under test): replay re-executes runs first, first+stride,
+    /// ..., run in one process under their seeded strategies
+    #[serde(default)]
+    pub sequence_prefix: Option<(u64, u64)>,
 }
 
 pub fn to_pj(p: &[Preempt]) -> Vec<PreemptJ> {
@@ -686,7 +691,7 @@ pub fn run_batch(scn: &'static dyn DynScenario, opts: &BatchOpts) -> i32 {
         };
         // (a worker executes runs k, k+jobs, ...: the prefix of the crashed run follows from its index)
         let crash_prefix = crash_prefix.map(|_| (f.run % jobs, jobs));
-        let (file, min_v) = minimise_and_write(scn, opts, f, crash_prefix);
+        let (file, min_v) = minimise_and_write(scn, opts, f, crash_prefix, jobs);
         match matches_known(&known, scn.property(), scn.name(), &min_v) {
             Some(k) => {
                 known_lines.insert(format!("KNOWN-FINDING: property={} {}", scn.property(), k.what));
@@ -737,7 +742,7 @@ fn same_class(a: &Option<Violation>, class: &str) -> bool {
 
 /// Shrink plan, faults and pre-emptions while the same violation class persists; write the replay
 /// file; verify it replays. Returns (path, minimised violation).
-fn minimise_and_write(scn: &dyn DynScenario, opts: &BatchOpts, f: FoundViolation, crash_prefix: Option<(u64, u64)>) -> (String, Violation) {
+fn minimise_and_write(scn: &dyn DynScenario, opts: &BatchOpts, f: FoundViolation, crash_prefix: Option<(u64, u64)>, jobs: u64) -> (String, Violation) {
     let class = f.violation.class.clone();
     let t0 = Instant::now();
     if class == "hang" {
@@ -781,8 +786,15 @@ fn minimise_and_write(scn: &dyn DynScenario, opts: &BatchOpts, f: FoundViolation
             faults = fl;
         }
         None => {
-            eprintln!("HARNESS-ERROR: recorded schedule of run {} does not reproduce {} on replay", f.run, class);
-            let file = write_replay(scn, opts, &f, &plan, &pre, &faults, &viol, &original, None);
+            // not reproducible in isolation: the run depends on what earlier runs of its worker left
+            // in process-global state of the code under test; fall back to replaying the sequence
+            eprintln!("[{}] run {} does not reproduce {} in isolation; recording the worker's run sequence instead", scn.property(), f.run, class);
+            let original = json!({"note": "not minimised: the violation depends on state left behind by earlier runs in the same process"});
+            let file = write_replay_seq(scn, opts, &f, &viol, &original, Some((f.run % jobs, jobs)));
+            match replay_file(scn, &file, false) {
+                Ok(Some(v)) if v.class == class => {}
+                other => eprintln!("HARNESS-ERROR: sequence replay {} does not reproduce ({:?})", file, other.map(|o| o.map(|v| v.class))),
+            }
             return (file, viol);
         }
     }
@@ -916,12 +928,21 @@ fn write_replay(
         schedule_hash: String::new(),
         minimised_from: original.clone(),
         crash_prefix,
+        sequence_prefix: None,
     };
     let dir = crate::verif_dir().join("replays");
     let _ = std::fs::create_dir_all(&dir);
     let path = dir.join(format!("{}-{}-{}-{}.json", scn.property(), scn.name(), opts.seed, f.run));
     std::fs::write(&path, serde_json::to_string_pretty(&rf).unwrap()).expect("write replay");
     path.to_string_lossy().to_string()
+}
+
+fn write_replay_seq(scn: &dyn DynScenario, opts: &BatchOpts, f: &FoundViolation, viol: &Violation, original: &Value, seq: Option<(u64, u64)>) -> String {
+    let file = write_replay(scn, opts, f, &f.plan, &f.preemptions, &f.faults, viol, original, None);
+    let mut rf: ReplayFile = serde_json::from_str(&std::fs::read_to_string(&file).expect("read replay")).expect("parse replay");
+    rf.sequence_prefix = seq;
+    std::fs::write(&file, serde_json::to_string_pretty(&rf).unwrap()).expect("write replay");
+    file
 }
 
 /// Re-execute a replay file. Ok(Some(v)) = violated again.
@@ -945,6 +966,20 @@ pub fn replay_file(scn: &dyn DynScenario, path: &str, verbose: bool) -> Result<O
             }
         }
         return Ok(None);
+    }
+    if let Some((first, stride)) = rf.sequence_prefix {
+        let tier = if rf.tier == "thorough" { Tier::Thorough } else { Tier::Quick };
+        let mut run = first;
+        let mut last = None;
+        while run <= rf.run {
+            let plan = plan_for(scn, rf.verif_seed, run, tier);
+            let sched = sched_for(scn, rf.verif_seed, run);
+            let rep = scn.execute_json(&plan, &sched);
+            flush_epoch();
+            last = rep.violation;
+            run += stride.max(1);
+        }
+        return Ok(last);
     }
     if rf.violation.class == "hang" {
         // a recorded hang is replayed under the seeded strategy it was found with, with a watchdog
